@@ -533,6 +533,7 @@ class Ctx:
         self.assumptions = 0
         self.decided = {}
         self._keep = []           # keeps decided terms alive so their ids are not reused
+        self.fp_mode = False      # IEEE mode (symx.fp): every query goes to a fresh, non-incremental solver (bit-blasting tactic)
 
     # -- symbols
     def fresh(self, base, lo=None, hi=None, integer=False):
@@ -560,6 +561,18 @@ class Ctx:
         if timeout_ms is not None:
             self.solver.set("timeout", timeout_ms)
         self.stats["queries"] += 1
+        if self.fp_mode:
+            s = z3.Solver()
+            s.set("timeout", timeout_ms if timeout_ms is not None else self.timeout_ms)
+            s.add(*self.solver.assertions())
+            if extra:
+                s.add(*extra)
+            r = str(s.check())
+            m = s.model() if r == "sat" and (want_model or not extra) else None
+            self.stats["solver_s"] += time.time() - t
+            if r == "unknown":
+                self.stats["unknown"] += 1
+            return r, m
         if extra:
             self.solver.push()
             self.solver.add(*extra)
@@ -813,6 +826,20 @@ def explore(harness, *, max_paths=200000, timeout_ms=15000, seed=0, max_violatio
 def _robust_model(ctx, o, e, m, known_id):
     """Prefer a counterexample whose inputs are multiples of 1/64 in [-1024, 1024] (exact in
     float32, so the replay on the real build is not at the mercy of rounding)."""
+    prefer = ctx.notes.get("fp_prefer")
+    if prefer:
+        # IEEE mode: prefer a counterexample whose scale parameters are of ordinary magnitude (any model reproduces bit for bit)
+        extra = [z3.Not(e)]
+        if o.known:
+            regs = z3.Or(*[lb(r) for _, r in o.known])
+            extra.append(regs if known_id is not None else z3.Not(regs))
+        for x, lo, hi in prefer:
+            srt = x.e.sort()
+            extra += [z3.fpGEQ(x.e, z3.FPVal(lo, srt)), z3.fpLEQ(x.e, z3.FPVal(hi, srt))]
+        r, m2 = ctx.check(*extra, want_model=True, timeout_ms=20000)
+        if r == "unknown":
+            ctx.stats["unknown"] -= 1
+        return m2 if r == "sat" else m
     inputs = ctx.notes.get("inputs")
     if not inputs:
         return m
